@@ -153,3 +153,35 @@ def random_runs(run, exe, spec, configs, runs, prop, wanted_or, harness_env=None
                 run.violation("%s|%s|random %s" % (v[0], v[1], name), v[4], v[5])
             else:
                 run.note("oracle of another property fired in random %s: %s %s: %s" % (name, v[0], v[1], v[5][:160]))
+
+
+def generated_notes(run, prop, wanted_or):
+    """Generated note programs (tools/genprog.py gennote): random trees of 1-4 notes with deadlines, 2-4 threads of wait / nsync_wait_n over
+    notes and the counter (incl. the 5-object heap path) / nsync_sem_wait_with_cancel_ / poll / new+use+free / notify, with a finisher that
+    notifies every root, so every thread must finish; random and priority-based schedules, oracles on; alternately with the real mu.c
+    underneath (h_l2r) and with the ideal lock (h_l2).  Frees that race with a notify of a relative that has children are left to the
+    hand-written configurations (recorded findings 6.4-6.6)."""
+    import genprog, notelib, concurrent.futures as cf
+    nprog = int(os.environ.get("VERIF_GENPROGS", 120 if run.tier == "quick" else 1200))
+    nruns = 400 if run.tier == "quick" else 4000
+    base = seed() * 100000
+    exes = {"h_l2r": build("h_l2r"), "h_l2": build("h_l2")}
+    e = dict(os.environ, VERIF_PROP=prop)
+
+    def one(i):
+        hn = "h_l2r" if i % 2 == 0 else "h_l2"
+        c = genprog.gennote(base + i, prop)
+        init = init_line("note", notelib.note_conf(c)).replace(" ", " harness=%s " % hn, 1)
+        return i, hn, mulib.run_harness_env(exes[hn], ["random", str(nruns), str(base + i), init, REPLAYS], e)
+    nv = 0
+    with cf.ThreadPoolExecutor(8) as ex:
+        for i, hn, res in ex.map(one, range(nprog)):
+            run.add("evaluations", nruns); run.add("distinct_nontrivial", res["stats"].get("nontrivial", 0))
+            for v in res["viols"]:
+                if v[0] in wanted_or or v[0] == "O-crash":
+                    nv += 1
+                    run.violation("%s|%s|generated note program %d (%s)" % (v[0], v[1], base + i, hn), v[4], v[5])
+                else:
+                    run.note("oracle of another property fired in generated note program %d: %s %s: %s" % (base + i, v[0], v[1], v[5][:160]))
+    run.cov["generated_note_programs"] = {"programs": nprog, "schedules_each": nruns, "harnesses": "h_l2r (real mu.c) and h_l2 (ideal lock), alternating",
+                                          "generator": "tools/genprog.py gennote (seed %d..%d, focus %s)" % (base, base + nprog - 1, prop), "violations": nv}
